@@ -120,6 +120,7 @@ def run(ctx: Ctx) -> None:
     for s in (isa.STATE_RS, isa.LIB_RS, "core/src/snapshot.rs"):
         ctx.file_used(REPO / rs.file_for(s))
     names = list(ARCH)
+    snapshot_capture_live(ctx, py)
     py_tab = python_table(ctx, py, names)
     rs_tab, inv_ok = rust_table(ctx, rs, names)
     n = 0
@@ -183,7 +184,18 @@ def python_table(ctx: Ctx, py: PyProgram, names: list[str]) -> dict:
         for m in list(values):
             if m.name in BASES:
                 values[m] = BitVec.sym(m.name, BASES[m.name])
-        selfobj = Term("Registers", (), {**class_consts, "_values": values, "BASE": base_set, "_SUBREG_INFO": subinfo, "call_sub_level": 0})
+        # other instance attributes __init__ gives a constant value (bookkeeping counters, optional caches): supplied so that a set()
+        # which also maintains them stays inside the fragment; they play no part in the register law
+        init_consts: dict = {}
+        init_fn = rcls.methods.get("__init__") if hasattr(rcls, "methods") else None
+        for st in (ast.walk(init_fn) if init_fn is not None else []):
+            tg = st.targets[0] if isinstance(st, ast.Assign) and len(st.targets) == 1 else (st.target if isinstance(st, ast.AnnAssign) and st.value is not None else None)
+            if isinstance(tg, ast.Attribute) and isinstance(tg.value, ast.Name) and tg.value.id == "self" and tg.attr not in ("_values",):
+                try:
+                    init_consts[tg.attr] = ev0.eval(st.value)
+                except NotConst:
+                    pass
+        selfobj = Term("Registers", (), {**init_consts, **class_consts, "_values": values, "BASE": base_set, "_SUBREG_INFO": subinfo, "call_sub_level": 0})
         ev = PyEval(py, mod, {"self": selfobj, "reg": rn[w], "value": BitVec.sym("v", 32)}, budget=[200000])
         try:
             _exec_fn(ev, set_fn)
@@ -408,3 +420,71 @@ def snapshot_blob(ctx: Ctx, py: PyProgram, rs: RustProgram) -> None:
     temp_key_format(ctx, py, rs)       # the scratch registers travel in the metadata, keyed by name: writer and reader spellings agree
     from .c16 import rust_apply_whole
     rust_apply_whole(ctx, rs, "C08.4/snapshot-apply", "C08.4/rust-snapshot-apply")
+
+
+def snapshot_capture_live(ctx: Ctx, py: PyProgram) -> None:
+    """`CPURegistersSnapshot.from_registers(regs)` reads the register file as it is now: every return hands back a record built by
+    this call.  A return of a remembered record is acceptable only under a write-generation test, and then every store into the
+    register storage must bump that generation before the storing method returns - a store path that skips the bump (a special case
+    with its own early return) makes the next capture stale."""
+    rel = "sc62015/pysc62015/stepper.py"
+    fn = py.func(rel, "CPURegistersSnapshot.from_registers")
+    params = [a.arg for a in fn.args.args if a.arg not in ("cls", "self")]
+    if not params:
+        raise AnalysisError("from_registers has no register-file parameter")
+    regs = params[0]
+    from ..rules import py_defs
+    d = py_defs(fn)
+    parent = {}
+    for p_ in ast.walk(fn):
+        for ch in ast.iter_child_nodes(p_):
+            parent[id(ch)] = p_
+
+    def fresh(v: ast.AST, depth: int = 0) -> bool:
+        if isinstance(v, ast.Call) and isinstance(v.func, ast.Name) and v.func.id in ("cls", "CPURegistersSnapshot"):
+            return True
+        if isinstance(v, ast.Name) and v.id in d and depth < 3:
+            return all(isinstance(x, ast.AST) and fresh(x, depth + 1) for x in d[v.id])
+        return False
+    n = 0
+    emod = py.module(isa.EMU_PY)
+    rcls = next(c for c in ast.walk(emod.tree) if isinstance(c, ast.ClassDef) and c.name == "Registers")
+    for r in [r for r in ast.walk(fn) if isinstance(r, ast.Return) and r.value is not None]:
+        n += 1
+        if fresh(r.value):
+            continue
+        # which attributes of the register file guard this return?
+        counters = set()
+        anc = parent.get(id(r))
+        while anc is not None and anc is not fn:
+            if isinstance(anc, ast.If):
+                for x in ast.walk(anc.test):
+                    nm = x.id if isinstance(x, ast.Name) else None
+                    exprs = [x] + ([v for v in d.get(nm, []) if isinstance(v, ast.AST)] if nm else [])
+                    for e in exprs:
+                        for y in ast.walk(e):
+                            if isinstance(y, ast.Attribute) and isinstance(y.value, ast.Name) and y.value.id == regs:
+                                counters.add(y.attr)
+                            if isinstance(y, ast.Call) and isinstance(y.func, ast.Name) and y.func.id == "getattr" and len(y.args) >= 2 and isinstance(y.args[0], ast.Name) and y.args[0].id == regs and isinstance(y.args[1], ast.Constant):
+                                counters.add(str(y.args[1].value))
+            anc = parent.get(id(anc))
+        unbumped = []
+        for m in [m for m in rcls.body if isinstance(m, ast.FunctionDef)]:
+            for blk in ast.walk(m):
+                for fld in ("body", "orelse"):
+                    stmts = getattr(blk, fld, None)
+                    if not isinstance(stmts, list):
+                        continue
+                    for i, st in enumerate(stmts):
+                        if isinstance(st, (ast.Assign, ast.AugAssign)) and any(isinstance(t, ast.Subscript) and attr_chain(t.value) == "self._values" for t in (st.targets if isinstance(st, ast.Assign) else [st.target])):
+                            tail = stmts[i + 1:]
+                            upto = next((j for j, x in enumerate(tail) if isinstance(x, ast.Return)), len(tail))
+                            bumped = {t.attr for x in tail[:upto + 0] if isinstance(x, (ast.Assign, ast.AugAssign)) for t in (x.targets if isinstance(x, ast.Assign) else [x.target]) if isinstance(t, ast.Attribute) and attr_chain(t.value) == "self"}
+                            if not (bumped & counters):
+                                unbumped.append((m.name, st.lineno))
+        what = (f"guarded by {sorted(counters)} of the register file, but Registers.{unbumped[0][0]} stores a register at line {unbumped[0][1]} and returns without bumping it" if counters and unbumped
+                else "with no test that the register file is unchanged" if not counters else None)
+        if what:
+            ctx.violation("C08.3/capture-live", key_of(rel, "CPURegistersSnapshot.from_registers", "returns a remembered snapshot"),
+                          f"from_registers returns `{unparse(r.value)[:60]}`, a snapshot remembered from an earlier call, {what}: the capture (and what apply_to / to_dict later write) shows register values from before that store", f"{rel}:{r.lineno}")
+    ctx.instance("C08.3/capture-live", "returns of CPURegistersSnapshot.from_registers: built by this call (or guarded by a write generation every store path bumps)", n, 1)
